@@ -649,8 +649,18 @@ def _faulty_problem(cfg, inj):
                 out[a, b] = Y[a, b] / (E[off[i] + a] - E[off[j] + b])
         return FaultArray(out)
 
+    def Heval_nested(*order):
+        # one evaluation of the user's term returns all of its blocks (list of lists), the library unpacks them
+        inj.tick("H")
+        if tuple(order) != zo and terms.get(tuple(order)) is None:
+            return zero
+        return [[(h0_blocks[i] if i == j else zero) if tuple(order) == zo else FaultArray(P.blk(terms[tuple(order)], i, j)) for j in range(P.nb)] for i in range(P.nb)]
+
     def make():
-        H = BlockSeries(eval=Heval, shape=(P.nb, P.nb), n_infinite=P.nparams, name="H")
+        if cfg.get("input_format") == "nested":
+            H = BlockSeries(eval=Heval_nested, shape=(), n_infinite=P.nparams, name="H")
+        else:
+            H = BlockSeries(eval=Heval, shape=(P.nb, P.nb), n_infinite=P.nparams, name="H")
         if P.carrier == "A":
             return block_diagonalize(H, hermitian=P.hermitian, **P.fd_kwarg())
         return block_diagonalize(H, solve_sylvester=solve_sylvester, hermitian=P.hermitian)
@@ -738,7 +748,7 @@ def c11(cfg):
         for a in pts:
             points.append((a, ("H", 0)))  # second fault: first H evaluation of the retry
     after = cfg.get("after", "same_then_all")
-    sig = f"fault:herm={P.hermitian}:sizes={'|'.join(map(str, P.sizes))}:request={form}"
+    sig = f"fault:herm={P.hermitian}:sizes={'|'.join(map(str, P.sizes))}:request={form}" + (f":input={cfg['input_format']}" if cfg.get("input_format") else "")
     n_cases = 0
     failures = []
     unknown = 0
@@ -927,4 +937,11 @@ def configs_c11(tier, seed):
                 cfgs.append(dict(base, kinds=["H", "matmul"], trigger=list(tr), after=after))
         cfgs.append(dict(base, kinds=["H", "matmul"], trigger=[0, 0, 0, mo], trigger_form="order_slice", after="same_then_all",
                          exceptions=["Exception", "KeyboardInterrupt"]))
+    # the Hamiltonian as a lazily defined series whose terms are lists of lists of blocks (unpacked by the library)
+    for herm in (True, False):
+        base = dict(carrier="B", hermitian=herm, sizes=[1, 2], spectrum=(RAT_SPECTRA if herm else CPLX_SPECTRA)[3], terms=[[1], [2]], max_order=2, input_format="nested")
+        for tr in [(0, 0, 0, 2), (1, 0, 1, 2)] + ([(2, 1, 0, 2)] if tier == "thorough" else []):
+            cfgs.append(dict(base, trigger=list(tr), after="same_then_all"))
+    cfgs.append(dict(carrier="A", hermitian=True, sizes=[2, 1], spectrum=["0", "2", "1"], terms=[[1]], max_order=2, kinds=["H", "matmul"], trigger=[0, 0, 0, 2],
+                     after="same_then_all", input_format="nested"))
     return [("vf.props.history", "c11", c) for c in cfgs]
